@@ -94,11 +94,11 @@ def _handle_failure(unit, res, ob, v, path):
     spec = res.get('replay')
     model = v.model
     out['model_excerpt'] = _model_excerpt(model)
-    if spec is None or model is None or path is None:
+    if spec is None or model is None:
         out['replay'] = None
         return out
     try:
-        state = path.ctx.ghost.get('state')
+        state = path.ctx.ghost.get('state') if path is not None else None
         sizes = spec['sizes'](state) if spec.get('sizes') else []
         small = _minimise(ob, sizes)
         use = small or model
